@@ -15,6 +15,7 @@ Case shapes (bytes are hex strings):
 import asyncio, io, json, logging, os, signal, threading, time
 from concurrent.futures import ThreadPoolExecutor
 import core
+import priv
 
 KINDS = ("stream", "pool", "sync")
 KIND_CODE = {"stream": 0, "pool": 1, "sync": 2}
@@ -508,7 +509,9 @@ class C02(core.Property):
                     "harness/c02.py (generators, stub protocol, json.loads wrapper, canonicalisation)",
                     "modelled not verified: asyncio.StreamReader.readline/readexactly (incl. the line limit), "
                     "BufferedReader.readline/read, re fullmatch of the one pattern, int() incl. the 4300-digit limit, "
-                    "bytes.strip()"]
+                    "bytes.strip()",
+                    priv.trusted(["server.start_io_sync"])]
+    private = ["server.start_io_sync"]
     assumptions = ["stop_event is not set while the loop runs (handlers that set it are C09's subject)",
                    "Content-Length values fit in memory (a blocking read(n) of an absurd n raises OverflowError/MemoryError; not modelled)",
                    "BufferedReader hides short pipe reads (kernel semantics, observed only)"]
@@ -826,7 +829,7 @@ class C02(core.Property):
             return [{"case": None, "impl": None, "S": None, "verdict": "violation", "broken": "extracted driver sanity",
                      "log": repr(bad)[:1500], "suffix": "no-failing-input-found"}]
         if self.id == "C02":
-            # the loops reached through the real entry points (start_io / _start_io_sync / start_tcp / client)
+            # the loops reached through the real entry points (start_io / its sync variant / start_tcp / client)
             import c02_entry
             t0 = time.time()
             v, n = c02_entry.check(chk)
